@@ -1,11 +1,12 @@
 # /verif build: framework (engine objects) and the two builds of the real gama sources.
 # Everything derived from /repo is rebuilt from /repo's CURRENT working tree (dependency tracked).
 REPO    ?= /repo
-B       ?= /verif/build
+V       := $(patsubst %/,%,$(dir $(abspath $(lastword $(MAKEFILE_LIST)))))
+B       ?= $(V)/build
 CXX     ?= g++
 STD     := -std=c++17
-SYMFLAGS:= $(STD) -O1 -g0 -w -I$(REPO)/lib -I/verif/symx -DSX_WITH_GAMA -include /verif/symx/prefix.h -ftrivial-auto-var-init=pattern -fno-strict-aliasing
-DBLFLAGS:= $(STD) -O1 -g0 -w -I$(REPO)/lib -I/verif/symx
+SYMFLAGS:= $(STD) -O1 -g0 -w -I$(REPO)/lib -I$(V)/symx -DSX_WITH_GAMA -include $(V)/symx/prefix.h -ftrivial-auto-var-init=pattern -fno-strict-aliasing
+DBLFLAGS:= $(STD) -O1 -g0 -w -I$(REPO)/lib -I$(V)/symx
 
 # translation units of the library; the excluded ones do not compile under the scalar
 # substitution (bool/int initialised from a scalar, yaml-cpp headers) and anchor no numeric property
